@@ -27,6 +27,7 @@ type Solver struct {
 	kind     string // z3 | z3-new | cvc5 | cvc5-int
 	cmd      *exec.Cmd
 	in       io.WriteCloser
+	w        *bufio.Writer
 	out      *bufio.Reader
 	declared []map[string]bool // per push level
 	Queries  int
@@ -63,7 +64,7 @@ func NewSolver(kind string, timeoutMs int) (*Solver, error) {
 	if err := cmd.Start(); err != nil {
 		return nil, err
 	}
-	s := &Solver{kind: kind, cmd: cmd, in: in, out: bufio.NewReaderSize(outp, 1<<20), timeout: timeoutMs}
+	s := &Solver{kind: kind, cmd: cmd, in: in, w: bufio.NewWriterSize(in, 1<<16), out: bufio.NewReaderSize(outp, 1<<20), timeout: timeoutMs}
 	s.declared = []map[string]bool{{}}
 	if strings.HasPrefix(kind, "z3") {
 		s.send("(set-option :produce-models true)")
@@ -85,7 +86,7 @@ func (s *Solver) send(line string) {
 	if s.log != nil {
 		fmt.Fprintln(s.log, line)
 	}
-	if _, err := io.WriteString(s.in, line+"\n"); err != nil {
+	if _, err := s.w.WriteString(line + "\n"); err != nil {
 		s.dead = true
 	}
 }
@@ -153,6 +154,7 @@ func (s *Solver) Check() SatResult {
 	}
 	start := time.Now()
 	s.send("(check-sat)")
+	s.w.Flush()
 	s.Queries++
 	defer func() { s.Time += time.Since(start) }()
 	for {
@@ -248,6 +250,7 @@ func (s *Solver) GetModel(vars []*Term) (Model, error) {
 	}
 	sb.WriteString("))")
 	s.send(sb.String())
+	s.w.Flush()
 	resp, err := s.readSexp()
 	if err != nil {
 		return nil, err
